@@ -300,7 +300,7 @@ type sval struct {
 
 // spec strings (replayable):
 //   b:true  i:<int>:<smi|int64|dnum|text>  d:<digits>:<E>:<sign>:<new|text>  inf:<sign>
-//   s:<hex>:<str|concat|except>   t:<literal text>
+//   s:<hex>:<str|concat|except>   S:<length>   t:<literal text>
 func build(spec string) (sv sval, err error) {
 	defer func() {
 		if r := recover(); r != nil {
@@ -374,6 +374,12 @@ func build(spec string) (sv sval, err error) {
 		case "except":
 			sv.v = core.BuiltinSuExcept(s)
 		}
+	case "S": // S:<n> = a string of n bytes ("xxx...y")
+		var n int
+		fmt.Sscanf(f[1], "%d", &n)
+		str := strings.Repeat("x", n-1) + "y"
+		sv.m = &mval{class: clStr, s: str}
+		sv.v = core.SuStr(str)
 	case "t": // date / timestamp literal yyyymmdd.hhmmssmmm[ccc]
 		lit := f[1]
 		var d [8]int
@@ -727,6 +733,17 @@ func checkObjects(c *lib.Ctx) {
 		sv, _ := build(s)
 		keys = append(keys, ospec{sv.name, sv.m, sv.v})
 	}
+	// nested values whose packed size sits on the varint length thresholds
+	// (1+len = 127 | 128 | 129 and 16383 | 16384 | 16385): packValue moves
+	// the bytes when the length needs more than one byte
+	for _, sp := range []string{"S:126", "S:127", "S:128", "S:16382", "S:16383", "S:16384"} {
+		sv, err := build(sp)
+		if err != nil {
+			lib.Infra("leaf %s: %v", sp, err)
+		}
+		pool = append(pool, ospec{sv.name, sv.m, sv.v})
+	}
+	keys = append(keys, pool[len(pool)-5]) // a 127 byte key
 	level1 := containers(pool, keys, true)
 	// depth 2: containers over a sample of depth-1 containers plus scalars
 	var pool2 []ospec
@@ -782,6 +799,7 @@ func run(c *lib.Ctx) {
 	}
 	specs = append(specs, decimalSpecs(c)...)
 	specs = append(specs, stringSpecs()...)
+	specs = append(specs, "S:64", "S:126", "S:127", "S:128", "S:255", "S:256", "S:16382", "S:16383", "S:16384", "S:70000")
 	specs = append(specs, dateSpecs(c)...)
 	var svs []sval
 	for _, s := range specs {
